@@ -126,6 +126,14 @@ fn d(w: &mut World, file: u8, name: &'static str, deps: &[&'static str]) -> usiz
     i
 }
 
+/// scope arms: concrete lines (4, 6, 8, ... in declaration order), symbolic scopes — the verdict depends on scopes only
+fn ds(w: &mut World, file: u8, name: &'static str, deps: &[&'static str]) -> usize {
+    let l = 4 + 2 * w.defs.len();
+    let i = w.def(file, name, l);
+    w.defs[i].deps = deps.to_vec();
+    w.defs[i].scope = any_scope();
+    i
+}
 macro_rules! c16_arm {
     ($id:ident, $body:expr) => {
         #[cfg_attr(kani, kani::proof)]
@@ -155,18 +163,18 @@ c16_arm!(c16_cyc_branch_then_back_edge, { let mut w = World::new(&[C0]); d(&mut 
 /// f(x) where x is no fixture, g(f): no cycle.
 c16_arm!(c16_cyc_unknown_dep, { let mut w = World::new(&[C0]); d(&mut w, C0, "f", &["x"]); d(&mut w, C0, "g", &["f"]); cycles_arm(w, false) });
 
-/// @harness id=c16_scope_simple props=C16,C12 unwind=17 mem=8 cap=1200 unwindset=find_inner:3
+/// @harness id=c16_scope_simple props=C16,C12 unwind=17 mem=12 cap=1200 unwindset=find_inner:3
 /// C0: f, g(f), all 25 scope pairs: warning iff scope(f) < scope(g).
-c16_arm!(c16_scope_simple, { let mut w = World::new(&[C0]); d(&mut w, C0, "f", &[]); d(&mut w, C0, "g", &["f"]); scope_arm(w, C0, false) });
-/// @harness id=c16_scope_two_levels_root_first props=C16,C08 unwind=17 mem=10 cap=1500 unwindset=find_inner:3
+c16_arm!(c16_scope_simple, { let mut w = World::new(&[C0]); ds(&mut w, C0, "f", &[]); ds(&mut w, C0, "g", &["f"]); scope_arm(w, C0, false) });
+/// @harness id=c16_scope_two_levels_root_first props=C16,C08 unwind=17 mem=12 cap=1500 unwindset=find_inner:3
 /// f defined in C0 (registered first) and C1 with independent scopes; U: g(f): verdict from C1's f.
-c16_arm!(c16_scope_two_levels_root_first, { let mut w = World::new(&[C0, C1, U]); d(&mut w, C0, "f", &[]); d(&mut w, C1, "f", &[]); d(&mut w, U, "g", &["f"]); scope_arm(w, U, true) });
-/// @harness id=c16_scope_two_levels_near_first props=C16,C08 unwind=17 mem=10 cap=1500 unwindset=find_inner:3
+c16_arm!(c16_scope_two_levels_root_first, { let mut w = World::new(&[C0, C1, U]); ds(&mut w, C0, "f", &[]); ds(&mut w, C1, "f", &[]); ds(&mut w, U, "g", &["f"]); scope_arm(w, U, true) });
+/// @harness id=c16_scope_two_levels_near_first props=C16,C08 unwind=17 mem=12 cap=1500 unwindset=find_inner:3
 /// same, C1 registered before C0.
-c16_arm!(c16_scope_two_levels_near_first, { let mut w = World::new(&[C1, C0, U]); d(&mut w, C1, "f", &[]); d(&mut w, C0, "f", &[]); d(&mut w, U, "g", &["f"]); scope_arm(w, U, true) });
-/// @harness id=c16_scope_override_parent_first props=C16 unwind=17 mem=10 cap=1500 unwindset=find_inner:3
+c16_arm!(c16_scope_two_levels_near_first, { let mut w = World::new(&[C1, C0, U]); ds(&mut w, C1, "f", &[]); ds(&mut w, C0, "f", &[]); ds(&mut w, U, "g", &["f"]); scope_arm(w, U, true) });
+/// @harness id=c16_scope_override_parent_first props=C16 unwind=17 mem=12 cap=1500 unwindset=find_inner:3
 /// override C1 `f(f)` over C0 `f()` (parent registered first): warning on C1.f iff scope(C0.f) < scope(C1.f).
-c16_arm!(c16_scope_override_parent_first, { let mut w = World::new(&[C0, C1]); d(&mut w, C0, "f", &[]); d(&mut w, C1, "f", &["f"]); scope_arm(w, C1, true) });
-/// @harness id=c16_scope_sibling_unrelated props=C16,C08 unwind=17 mem=10 cap=1500 unwindset=find_inner:3
+c16_arm!(c16_scope_override_parent_first, { let mut w = World::new(&[C0, C1]); ds(&mut w, C0, "f", &[]); ds(&mut w, C1, "f", &["f"]); scope_arm(w, C1, true) });
+/// @harness id=c16_scope_sibling_unrelated props=C16,C08 unwind=17 mem=12 cap=1500 unwindset=find_inner:3
 /// an unrelated same-named f in the sibling conftest S registered first; C0: f, g(f): S must not matter.
-c16_arm!(c16_scope_sibling_unrelated, { let mut w = World::new(&[S, C0]); d(&mut w, S, "f", &[]); d(&mut w, C0, "f", &[]); d(&mut w, C0, "g", &["f"]); scope_arm(w, C0, true) });
+c16_arm!(c16_scope_sibling_unrelated, { let mut w = World::new(&[S, C0]); ds(&mut w, S, "f", &[]); ds(&mut w, C0, "f", &[]); ds(&mut w, C0, "g", &["f"]); scope_arm(w, C0, true) });
